@@ -79,6 +79,21 @@ static int line_to_instr(struct instr *instr_data, char *filtered_asm_str) {
   // convert register string to enum representation
   all_opd_str_to_reg(instr_data);
   int m_index = instr_data->mem_index;
+  // only 32- and 64-bit general purpose registers can address memory, and
+  // base and index must have the same width
+  if (instr_data->opd[m_index].type == 'm') {
+    asm_reg addr[2] = {instr_data->opd[m_index].reg,
+                       instr_data->opd[m_index].index};
+    for (int i = 0; i < 2; i++)
+      FAIL_IF_MSG(addr[i] != reg_none && (addr[i] & MODE_MASK) != reg32 &&
+                      (addr[i] & MODE_MASK) != ext32 &&
+                      (addr[i] & MODE_MASK) != reg64 &&
+                      (addr[i] & MODE_MASK) != ext64,
+                  "invalid effective address: not an address register\n");
+    FAIL_IF_MSG(addr[0] != reg_none && addr[1] != reg_none &&
+                    (addr[0] & BIT_MASK) != (addr[1] & BIT_MASK),
+                "invalid effective address: base and index differ in size\n");
+  }
   // [MEM] no register
   if (instr_data->opd[m_index].type == 'm' &&
       instr_data->opd[m_index].str[0] == '\0' &&
